@@ -19,7 +19,7 @@ COQ_PROP = "Properties/C19.v"; COQ_DIRS = ["Common", "Topo"]
 COQ_MODULE = "Topo.Model"; RUN_FN = "run"
 THEOREMS = ["C19_global_view_exact", "C19_from_modules_exact", "C19_spanned_exact", "C19_views_wellformed",
             "C19_connected_iff", "C19_bidirectional_iff", "C19_filter_exact", "C19_filter_nodes_view",
-            "C19_filter_edges_exact", "C19_first_hop_of_shortest_path", "C19_script_worlds", "C19_module_ids_distinct"]
+            "C19_filter_edges_exact", "C19_first_hop_of_shortest_path", "C19_script_worlds", "C19_module_ids_distinct", "C19_history_exact"]
 QUICK_N = 4000; THOROUGH_N = 150000
 CLAIM = dict(
     text="Machine-checked (Coq 8.16, axiom-free) for a function-by-function model of topology.rs as it is now (both work lists FIFO): for EVERY gate graph whose chains stay within the supported 16 hops - trees, stars, rings, multi-edges, self-loops, disconnected parts, transit gates anywhere - the global view has one node per module in module order and, per module, exactly one edge per endpoint gate in gate order, labelled with that gate and the far gate of its chain and leading to the node of the far gate's owner (from_modules on any duplicate-free module list: the same, restricted to chains ending inside the list); the view spanned from ANY root terminates, contains exactly the modules reachable from the root, each once, root first, with the same exact edges - proved via the invariant that every index handed to a pending module is its position in nodes++pending; connected() is true iff every node reaches every node (the recursive visit is a DFS whose depth is bounded by the node count); bidirectional() is true iff every edge u->v is answered by an edge v->u; filter_nodes keeps exactly the selected nodes in order and exactly the edges among them, re-indexed to the same modules (so a filtered exact view is the exact view of the kept modules); filter_edges keeps exactly the selected edges; dijkstra never panics for a source that is a node, terminates, and maps every reachable node other than the source to an edge leaving the source that starts a walk no walk undercuts (BFS layering invariant with lazy deletion), and maps neither the source nor unreachable nodes. Refuted by evaluation for the pinned code: LIFO dijkstra on the triangle, LIFO spanned on a root with two neighbours. The model is tied to des by differential runs of the extracted model against the real Sim/Gate/Topology API on generated gate graphs (including chains of 17..22 hops, where the model reproduces the 16-hop cut-off) and by an independent monitor that recomputes node sets, edge multisets, reachability and BFS distances from the wiring the script declares.",
@@ -31,7 +31,10 @@ RULE = ("scripts declare 1..14 modules with gates in shuffled creation order and
         " order/orientation), plus a malformed stream (re-used / unknown gates, chains without a hop) and a separate stream with"
         " 17..22-hop chains that is outside C19's quantifier (compared with the model, excluded from the monitor); queries: global"
         " view, spanned from every kind of root, from_modules on subsets/permutations, dijkstra from every source, connected,"
-        " bidirectional, filter_nodes with random masks, filter_edges, edges_for; every script also fixes where the process-global"
+        " bidirectional, filter_nodes with random masks, filter_edges, edges_for; half of the scripts are histories: some chains are"
+        " connected and some gates created (SimBuilder::gate / ModuleRef::create_gate / Spawner::gate) only after a first view"
+        " was taken, views are queried before, between and after these steps, and from a random point on the history continues"
+        " at run time inside a module (Topology::current(), des::net::globals()); every script also fixes where the process-global"
         " 16-bit ModuleId counter stands when the simulation is built (fresh process 0xff, mid-range, within a few ids of the 2^16"
         " wrap so that the modules' ids straddle it, below 0xff) and the runner reports whether the ids are pairwise distinct;"
         " non-trivial = distinct script with a view of"
@@ -82,12 +85,26 @@ def parse(script):
             if i + 1 >= len(script):
                 break
             qs.append([t, script[i + 1]]); i += 2
-        elif t == 9:
+        elif t in (9, 10):
             l, j = _take_lp(script, i + 1)
-            qs.append([9, len(l)] + l); i = j
+            qs.append([t, len(l)] + l); i = j
+        elif t == 11:
+            if i + 2 >= len(script):
+                break
+            qs.append([11, script[i + 1], script[i + 2]]); i += 3
+        elif t == 12:
+            if i + 1 >= len(script):
+                break
+            qs.append([12, script[i + 1]]); i += 2
         else:
             break
     return counts, chains, qs, qstart
+
+
+def chain_of(op):
+    """the gates of a connect operation `10 len mode m0 g0 ..`"""
+    body = op[3:]
+    return [(min(body[j], 255), min(body[j + 1], 255)) for j in range(0, len(body) - 1, 2)]
 
 
 def split(script):
@@ -102,30 +119,60 @@ def join(hdr, ops):
     return out
 
 
+MAXLATE = 60
+
+
 class World:
-    """The declared gate graph: which chains are wired, and what each endpoint gate's far end is."""
+    """The gate graph the script has declared SO FAR: which chains are wired, and what each endpoint gate's far end
+    is.  Starts with the header; `connect` / `new_gate` apply the wiring operations of the history."""
     def __init__(self, script):
         counts, chains, qs, _ = parse(script)
-        self.counts, self.queries = counts, qs
+        self.counts, self.queries = list(counts), qs
         self.nm = len(counts)
-        used = set()
+        self.used = set()
         self.chains = []      # wired chains (lists of gates)
         self.dropped = 0
-        for mode, c in chains:
-            ok = (len(c) >= 2 and len(set(c)) == len(c)
-                  and all(m < self.nm and g < counts[m] and (m, g) not in used for m, g in c))
-            if not ok:
-                self.dropped += 1
-                continue
-            used.update(c)
-            self.chains.append(c)
         self.far = {}         # endpoint gate -> (far gate, hops)
-        for c in self.chains:
-            self.far[c[0]] = (c[-1], len(c) - 1)
-            self.far[c[-1]] = (c[0], len(c) - 1)
-        self.max_hops = max([len(c) - 1 for c in self.chains], default=0)
-        # one directed edge per endpoint gate
+        self.max_hops = 0
+        self.edges = []       # one directed edge per endpoint gate
+        for mode, c in chains:
+            if not self.connect(c):
+                self.dropped += 1
+
+    def connect(self, c):
+        ok = (len(c) >= 2 and len(set(c)) == len(c)
+              and all(m < self.nm and g < self.counts[m] and (m, g) not in self.used for m, g in c))
+        if not ok:
+            return False
+        self.used.update(c)
+        self.chains.append(c)
+        self.far[c[0]] = (c[-1], len(c) - 1)
+        self.far[c[-1]] = (c[0], len(c) - 1)
+        self.max_hops = max(self.max_hops, len(c) - 1)
         self.edges = [(g, f) for g, (f, _) in sorted(self.far.items())]
+        return True
+
+    def new_gate(self, m):
+        """-> position + 1 of the new gate, 0 if none is created"""
+        m = min(m, 255)
+        if m < self.nm and self.counts[m] < MAXLATE:
+            self.counts[m] += 1
+            return self.counts[m]
+        return 0
+
+    def apply(self, op):
+        """applies a wiring operation; -> the record the runner prints for it (its own book-keeping, not des output)"""
+        if op[0] == 10:
+            return [11, int(self.connect(chain_of(op)))]
+        if op[0] == 11:
+            return [12, self.new_gate(op[1])]
+        return None
+
+    def final(self):
+        """the world after the whole history"""
+        for op in self.queries:
+            self.apply(op)
+        return self
 
     def adj(self, nodes=None):
         a = {}
@@ -174,7 +221,10 @@ def pretty(script):
         elif q[0] == 7: parts.append("filter_edges(%s)" % bin(q[1]))
         elif q[0] == 8: parts.append("edges_for(m%d)" % q[1])
         elif q[0] == 9: parts.append("from_modules(%s)" % q[2:])
-    return s + "; queries: " + ", ".join(parts)
+        elif q[0] == 10: parts.append("CONNECT " + "-".join("m%d.g%d" % g for g in chain_of(q)))
+        elif q[0] == 11: parts.append("NEW GATE on m%d%s" % (q[1], " (spawner)" if q[2] % 2 else ""))
+        elif q[0] == 12: parts.append("RUN TIME (in m%d):" % (q[1] % w.nm if w.nm else 0))
+    return s + "; history: " + ", ".join(parts)
 
 
 # ----------------------------------------------------------------------------- output records
@@ -195,7 +245,7 @@ def records(script, out):
             for _ in range(nn):
                 j += 7 if out[j] == 1 else 1
             ln = j - i
-        elif t in (4, 5):
+        elif t in (4, 5, 11, 12, 13):
             ln = 2
         elif t == 6:
             ln = 2 + 6 * out[i + 1]
@@ -296,14 +346,40 @@ def monitor(script, out):
 
 
 def monitor_views(script, out, w):
-    if w.max_hops > MAXHOPS:
+    """w: the gate graph of the header; the wiring operations of the history are applied to it as they come, so that
+    every view query is judged against the graph as it is at that moment."""
+    if World(script).final().max_hops > MAXHOPS:
         return None            # outside the quantifier (chains beyond the supported 16 hops)
     try:
         recs = records(script, out)
     except (ValueError, IndexError) as e:
         return "malformed output: %s" % e
     tr = Tracker(w)
+    nwire = 0; rt = False
     for q, r in recs:
+        t = q[0]
+        if t in (10, 11):
+            exp = w.apply(q)
+            if r != exp:
+                return "malformed output: wiring operation %s reported %s, by the script's rules it is %s" % (q[:8], r, exp)
+            nwire += 1 if exp[1] else 0
+            continue
+        if t == 12:
+            exp = [13, int(not rt and w.nm > 0)]
+            if r != exp:
+                return "malformed output: phase switch reported %s, expected %s" % (r, exp)
+            rt = rt or bool(exp[1])
+            continue
+        msg = monitor_query(tr, q, r)
+        if msg:
+            return msg + (" (graph as of %d wiring operation(s) after the header%s)" % (nwire, ", queried at run time" if rt else "")
+                          if nwire or rt else "")
+    return None
+
+
+def monitor_query(tr, q, r):
+    w = tr.w
+    for _ in (0,):
         t = q[0]
         if t in (1, 2, 6, 7, 9):
             exp = tr.expect(q)
@@ -400,35 +476,67 @@ def _mechanisms(script, out, m):
     if not script:
         return
     w = World(script)
+    wf = World(script).final()      # static features: of the graph the whole history builds
     p = id_pos(script)
     if p + w.nm > 65536 and w.nm >= 2: m.add("ids_straddle_u16_wrap")
     elif p == 0xff: m.add("id_counter_fresh_process")
     elif 0x100 <= p and p + w.nm <= 65536 - 64: m.add("id_counter_mid_range")
     elif p < 0xff: m.add("id_counter_below_0xff")
     if len(out) >= 4 and out[0] == 10 and out[3]: m.add("module_with_null_id")
-    if w.max_hops > MAXHOPS:
+    if wf.max_hops > MAXHOPS:
         m.add("over_16_hops_outside_quantifier")
-    if w.dropped: m.add("malformed_chain_not_wired")
-    if any(len(c) > 2 for c in w.chains): m.add("transit_chain")
-    if w.max_hops == MAXHOPS: m.add("chain_of_exactly_16_hops")
-    pairs = Counter(frozenset((a[0], b[0])) for (a, b) in w.edges)
+    if wf.dropped: m.add("malformed_chain_not_wired")
+    if any(len(c) > 2 for c in wf.chains): m.add("transit_chain")
+    if wf.max_hops == MAXHOPS: m.add("chain_of_exactly_16_hops")
+    pairs = Counter(frozenset((a[0], b[0])) for (a, b) in wf.edges)
     if any(v > 2 for k, v in pairs.items() if len(k) == 2): m.add("multi_edge")
     if any(len(k) == 1 for k in pairs): m.add("self_loop")
-    adj = w.adj()
+    adj = wf.adj()
     if w.nm and len(reach({a: adj.get(a, []) + [b for b in adj if a in adj[b]] for a in range(w.nm)}, 0)) < w.nm:
         m.add("disconnected_parts")
     tr = Tracker(w)
+    len_hdr = list(w.counts)
     try:
         recs = records(script, out)
     except (ValueError, IndexError):
         return m
+    rt = False
+    viewed = False          # some view of the gate graph was taken already
+    changed = False         # ... and the gate graph has changed since
+    changed_rt = False      # a connect at run time since the last run-time look at the global view
     for q, r in recs:
         t = q[0]
+        if t in (10, 11):
+            rec = w.apply(q)
+            if rec[1]:
+                m.add("late_connect" if t == 10 else "late_gate_created")
+                if t == 11 and q[2] % 2: m.add("late_gate_via_spawner")
+                if t == 10 and viewed:
+                    changed = True
+                    if not rt: m.add("query_between_build_steps")
+                    if any(g[1] >= len_hdr[g[0]] for g in chain_of(q)): m.add("late_connect_of_late_gate")
+                if t == 10 and rt: changed_rt = True
+            elif t == 10:
+                m.add("late_connect_not_wired")
+            continue
+        if t == 12:
+            if r == [13, 1]:
+                rt = True; m.add("runtime_phase")
+            continue
         if t in (1, 2, 6, 7, 9):
             exp = tr.expect(q)
             if exp is None or r[0] != 1:
                 continue
             nn = r[1]; order = r[2:2 + nn]
+            adj = w.adj()
+            if t in (1, 2, 9):
+                if changed:
+                    m.add("query_after_late_connect")
+                    if t == 1: m.add("global_view_again_after_late_connect")
+                if rt and changed_rt and t == 1:
+                    m.add("runtime_query_after_runtime_connect"); changed_rt = False
+                if rt: m.add("runtime_query")
+                viewed = True
             if t == 1: m.add("global_view")
             if t == 9:
                 m.add("from_modules_list")
@@ -655,10 +763,74 @@ def gen_queries(rng, nm, counts):
     return qs
 
 
+def connect_op(mode, c):
+    body = [mode] + [x for g in c for x in g]
+    return [10, len(body)] + body
+
+
+def gen_history(rng, nm, counts, chains):
+    """Splits a generated world into a header and a history: some chains are connected late, some gates (the last ones of
+    their module) are created late, views are taken before, between and after these steps, and from some point on the
+    history may continue at run time inside a module.  -> (header counts, header chains, operations)"""
+    hdr_counts = list(counts)
+    for m in range(nm):
+        if counts[m] and rng.random() < 0.3:
+            hdr_counts[m] = counts[m] - rng.randint(1, min(3, counts[m]))
+    hdr, late = [], []
+    for mode, c in chains:
+        is_late = any(m < nm and g >= hdr_counts[m] for m, g in c) or rng.random() < 0.4
+        (late if is_late else hdr).append((mode, c))
+    rng.shuffle(late)
+
+    def look():
+        r = rng.random()
+        if r < 0.7: q = [[1]]
+        elif r < 0.9: q = [[2, rng.randrange(nm)]]
+        else:
+            ms = [rng.randrange(nm) for _ in range(rng.randint(1, nm + 1))]
+            q = [[9, len(ms)] + ms]
+        for _ in range(rng.choice([0, 1, 1, 2, 3])):
+            q.append(rng.choice([[3, rng.randrange(nm)], [4], [5], [8, rng.randrange(nm)], [3, rng.randrange(nm)]]))
+        if rng.random() < 0.15:
+            q.append([6, ((1 << 62) - 1) & ~(1 << rng.randrange(nm))]); q.append([4])
+        return q
+
+    ops = []
+    created = list(hdr_counts)
+    switch_at = rng.randint(0, len(late)) if rng.random() < 0.5 else None
+    for k, (mode, c) in enumerate(late):
+        if rng.random() < 0.85:
+            ops += look()
+        if switch_at == k:
+            ops.append([12, rng.randrange(nm + 2)])
+            if rng.random() < 0.6: ops += look()
+        for (m, g) in sorted(c, key=lambda x: x[1]):
+            while m < nm and created[m] <= g and created[m] < counts[m]:
+                ops.append([11, m, rng.randrange(2)]); created[m] += 1
+        r = rng.random()
+        if r < 0.06:
+            ops.append([11, rng.randrange(nm + 1), rng.randrange(2)])           # an extra gate that stays unconnected
+        elif r < 0.12 and hdr:
+            ops.append(connect_op(0, hdr[0][1]))                                # gates in use already: not wired
+        ops.append(connect_op(mode, c))
+    if switch_at == len(late):
+        ops.append([12, rng.randrange(nm + 2)])
+    ops += look()
+    if rng.random() < 0.3:
+        ops += gen_queries(rng, nm, counts)[:6]
+    if rng.random() < 0.05:
+        ops.append([12, 0]); ops += look()
+    return hdr_counts, hdr, ops
+
+
 def gen_script(rng):
     r = rng.random()
     nm, counts, chains = gen_world(rng, long_chain=(r < 0.04), malformed=(0.04 <= r < 0.12))
-    return encode(counts, chains, gen_queries(rng, nm, counts), gen_id_pos(rng, nm))
+    p = gen_id_pos(rng, nm)
+    if rng.random() < 0.5:
+        counts, chains, ops = gen_history(rng, nm, counts, chains)
+        return encode(counts, chains, ops, p)
+    return encode(counts, chains, gen_queries(rng, nm, counts), p)
 
 
 def gen_id_pos(rng, nm):
@@ -712,3 +884,11 @@ def exhaustive():
                     qs += [[2, r], [4], [5]] + [[3, s] for s in range(nm)]
                 k += 1
                 yield encode(list(counts), [(0, c) for c in chains], qs, [0xff, 65535, 65534, 40000, 65533][k % 5])
+                if chains:
+                    # the same graph reached by a history: the last chain is connected after a first look
+                    # (alternately while building and at run time), every query repeated on the grown graph
+                    look = [[1], [4], [5]] + [[3, s] for s in range(nm)]
+                    hist = look + ([[12, k % nm]] if k % 2 else []) + [connect_op(0, chains[-1])] + look
+                    for r in range(nm):
+                        hist += [[2, r], [4]] + [[3, s] for s in range(nm)]
+                    yield encode(list(counts), [(0, c) for c in chains[:-1]], hist, 0xff)
